@@ -9,6 +9,7 @@ import (
 
 	"github.com/elastos/Elastos.ELA/common"
 	"github.com/elastos/Elastos.ELA/core"
+	"github.com/elastos/Elastos.ELA/core/contract"
 	pg "github.com/elastos/Elastos.ELA/core/contract/program"
 	"github.com/elastos/Elastos.ELA/core/transaction"
 	"github.com/elastos/Elastos.ELA/core/types"
@@ -31,6 +32,7 @@ type TxSpec struct {
 	Fee    int64 `json:"fee,omitempty"`   // sela
 	Amt    int   `json:"amt,omitempty"`   // 0 conserve; 1 four outputs of 2^62; 2 one output 2^63-1 + one small; 3 a negative output; 4 outputs exceed inputs by 1 sela; 5 a zero-value output added; 6 two outputs of 2^62; 7 fee one below minimum
 	Wd     *WdSpec `json:"wd,omitempty"` // a side-chain withdrawal instead of a transfer (withdraw.go)
+	Seq    int     `json:"seq,omitempty"` // input sequence number (all inputs)
 	force  []outpoint // harness-internal: spend exactly these outpoints
 	Sign   int   `json:"sign,omitempty"`  // 0 owner signs; 1 another key signs with its own code; 2 content altered after signing; 3 no program; 4 another actor's code with owner's signature; 5 valid signature of a different transaction
 }
@@ -263,13 +265,27 @@ func (s *sim) makeTx(v *view, spec TxSpec) *txInfo {
 	}
 	var inputs []*common2.Input
 	for _, in := range ins {
-		inputs = append(inputs, &common2.Input{Previous: common2.OutPoint{TxID: in.tx, Index: in.idx}, Sequence: 0})
+		inputs = append(inputs, &common2.Input{Previous: common2.OutPoint{TxID: in.tx, Index: in.idx}, Sequence: uint32(spec.Seq)})
 	}
 	tx := transaction.CreateTransaction(common2.TxVersion09, common2.TransferAsset, 0, &payload.TransferAsset{}, []*common2.Attribute{}, inputs, outs, 0, []*pg.Program{})
 	// unique nonce attribute so otherwise identical transfers differ
 	s.txNonce++
 	nonce := common2.NewAttribute(common2.Nonce, []byte(fmt.Sprintf("%d", s.txNonce)))
 	tx.SetAttributes([]*common2.Attribute{&nonce})
+	if spec.Sign == 8 && (from.multi != nil || from.weird != "") {
+		spec.Sign = 1
+	}
+	if spec.Sign == 8 && len(ins) > 0 && s.nKeyed >= 2 {
+		// Byzantine client: a Script attribute naming the cross-chain-prefixed
+		// alias of the spent output's own code hash (an "additional owner"
+		// whose hash collides with the real one in all but the prefix byte)
+		if o, ok := v.utxo[ins[0]]; ok {
+			alias := append([]byte{byte(contract.PrefixCrossChain)}, o.ph[1:]...)
+			sa := common2.NewAttribute(common2.Script, alias)
+			tx.SetAttributes([]*common2.Attribute{&nonce, &sa})
+			s.c.Fault("script-attribute-aliases-the-owner-under-the-cross-chain-prefix")
+		}
+	}
 
 	facts := &txFacts{signedBy: map[int]bool{}}
 	facts.ins = ins
@@ -280,7 +296,7 @@ func (s *sim) makeTx(v *view, spec TxSpec) *txInfo {
 	if other == from {
 		other = s.keyed(from.idx + 2)
 	}
-	if from.multi == nil && spec.Sign > 5 {
+	if from.multi == nil && spec.Sign > 5 && spec.Sign != 8 {
 		spec.Sign = 1 + spec.Sign%5 // modes 6, 7 exist for multisig actors only
 	}
 	if other == from && (spec.Sign == 1 || spec.Sign == 4) {
@@ -324,6 +340,12 @@ func (s *sim) makeTx(v *view, spec TxSpec) *txInfo {
 			if ok {
 				facts.signedBy[from.idx] = true
 			}
+		}
+	} else if spec.Sign == 8 {
+		// ... and, for that alias, a self-made cross-chain script over the
+		// client's own keys, validly signed; nothing by the real owner
+		if p := s.ccProgram(tx, sel0, nil); p != nil {
+			tx.SetPrograms([]*pg.Program{p})
 		}
 	} else if spec.Sign != 3 {
 		var buf bytes.Buffer
